@@ -177,6 +177,7 @@ func (n *Node) run(kind string, f func()) CallOutcome {
 		out.Panic = out.Sched.Panic
 		out.Stack = out.Sched.PanicStack
 	}
+	n.W.tr("call", kind, fmt.Sprint(n.ID), out.Sched.Interleaving, fmt.Sprint(out.Panic != nil, out.Crashed, out.Sched.Deadlock))
 	n.W.Stats.Interleavings[kind+"/"+out.Sched.Interleaving]++
 	n.W.Stats.SchedDecisions += out.Sched.Decisions
 	n.W.Stats.Deadlines += out.Sched.Deadlines
